@@ -331,13 +331,8 @@ def main():
         try:
             fn()
             notes.append(f"ok {name}")
-        except Exception as ex:  # shape not recognised
-            notes.append(f"FALLBACK {name}: {ex}")
-            fb = os.path.join(OUT, "fallback", name + ".lean.txt")
-            if os.path.exists(fb):
-                w(open(fb).read())
-            else:
-                raise
+        except Exception as ex:  # shape not recognised: stop, name the section (bin/check maps it to properties)
+            raise RuntimeError(f"section {name}: {ex}")
 
     # --- constants
     def consts():
